@@ -35,6 +35,10 @@ CLAIMED = {
         technique="MIR message census over all product code (+fixture) and receiver/payer origin analysis of every transfer constructible on each chain step",
         note="Decided: R03.1 only BankMsg::Send, cw20 Transfer/TransferFrom, WasmMsg::Execute with empty funds, vAMM swap/funding/SetOpen and insurance Withdraw messages are constructed anywhere; R03.2 engine transfers go to config.insurance_fund/config.fee_pool/engine/acting trader/stored liquidator and are paid by the acting trader or the vault; R03.3 liquidation replies never pay or charge the liquidated trader; R03.4 insurance Withdraw pays config.engine. Not decided: amounts and conservation inside bank/cw20 (trusted); fee-pool SendToken recipient is arbitrary by design.",
         design="4/C03"),
+    "C17": dict(
+        technique="MIR sibling agreement between query and execute arms (same pricing callee, same operand origins), reserve-writer argument flow, limit-comparison table on success/reject paths, cross-contract limit forwarding",
+        note="Decided: R17.1 InputAmount/OutputAmount and SwapInput/SwapOutput call the same pricing function on (msg.direction, msg amount, State reserves) and use the result unchanged; R17.2 reserve writer gets requested amount unchanged, priced amount on the other side, direction unchanged/flipped; R17.3 limit table (receive: >= limit, owe: <= limit, zero: untested, rejection only on strict violation); R17.5 engine forwards the caller's limit unchanged on increase, reduce, whole close, full liquidation. Not decided: the pricing arithmetic (C01).",
+        design="4/C17"),
 }
 
 NOT_BUILT = "rules designed in DESIGN.md section 4 but not built yet"
